@@ -265,3 +265,14 @@ def canon(x):
 
 def exc_name(e):
     return type(e).__name__
+
+
+def decanon(x):
+    """inverse of canon for Fractions (replays / corpus)"""
+    if isinstance(x, dict):
+        if set(x.keys()) == {"frac"}:
+            return Fraction(x["frac"][0], x["frac"][1])
+        return {k: decanon(v) for k, v in x.items()}
+    if isinstance(x, list):
+        return [decanon(i) for i in x]
+    return x
